@@ -231,7 +231,7 @@ PATHS = ['/resp', '/empty', '/stream', '/ctx', '/ctx?format=json', '/json', '/te
          '/ret403', '/boom', '/nonresp', '/post', '/static/a.txt', '/static/sub/bin.dat', '/static/empty', '/static/noext',
          '/static/missing', '/static/../x', '/_meta/', '/_meta/json/', '/reroute', '/reroute_raise', '/unknown/url', '/',
          # slash redirects whose Location has to carry unusual decoded characters (header values must stay valid)
-         '/dir/plain', '/dir/a%20b', '/dir/%01x', '/dir/x%7Fy', '/dir/caf%C3%A9', '/dir/q%3Fr%23s', '/branch?x=%0Ay',
+         '/dir/plain', '/dir/a%20b', '/dir/%01x', '/dir/x%7Fy', '/dir/caf%C3%A9', '/dir/q%3Fr%23s', '/branch?x=%0Ay', '/branch?RAWQ', '/dir/x?RAWQ',
          '/bare_exc', '/raise_bare_exc', '/own_message', '/raise503', '/ret500', '/ret502',
          '/item/5', '/item/+ 5', '/item/abc', '/ratio/- .5/1/+ 2', '/ratio/1e5/1/2', '/item/' + '9' * 5000]
 HEADERS = [{}, {'Accept': 'text/html'}, {'Accept': 'application/json'}, {'Accept-Encoding': 'gzip'},
@@ -258,8 +258,10 @@ def leg_protocol(run, quick):
                 for m in METHODS:
                     for hs in (hsets if not quick else hsets[::2] + [hsets[-1]]):
                         p, _, q = path.partition('?')
-                        env = create_environ(p, method=m, headers=hs, query_string=q or None,
+                        env = create_environ(p, method=m, headers=hs, query_string=(q if q != 'RAWQ' else None) or None,
                                              data=b'x=1' if m == 'POST' else None)
+                        if q == 'RAWQ':       # raw (not percent-encoded) UTF-8 bytes in the query, as servers hand them over
+                            env['QUERY_STRING'] = u'q=caf\xe9\u2603'.encode('utf8').decode('latin1')
                         ev, status, headers, body = drive(app, env)
                         tid += 1
                         traces.append({'tid': tid, 'reraise': False, 'ev': [dict({'m': '-', 'statusOK': True, 'headersOK': True, 'excInfo': False,
@@ -272,8 +274,10 @@ def leg_protocol(run, quick):
                                 if int(cl[0]) != len(body):
                                     run.violation('content-length-mismatch', '%s %s: Content-Length %s but %d body bytes'
                                                   % (m, path, cl[0], len(body)), dict(meta[tid], leg='L3'))
-                        env2 = create_environ(p, method=m, headers=hs, query_string=q or None,
+                        env2 = create_environ(p, method=m, headers=hs, query_string=(q if q != 'RAWQ' else None) or None,
                                               data=b'x=1' if m == 'POST' else None)
+                        if q == 'RAWQ':
+                            env2['QUERY_STRING'] = u'q=caf\xe9\u2603'.encode('utf8').decode('latin1')
                         for k_ in ('HTTP_CONTENT_LENGTH', 'HTTP_CONTENT_TYPE'):
                             env2.pop(k_, None)       # artefact of werkzeug.test.create_environ, not of the application
                         err = drive_validated(app, env2)
